@@ -29,6 +29,8 @@ DefRules == {"duplicate_type_name", "type_name_casing", "field_name_casing", "du
              "type_parameter_casing", "computed_unknown_name", "computed_type_error", "computed_duplicate_name", "generic_enum",
              "generic_protocol", "reserved_type_name",
              \* names that differ only in the case of letters inside a word become one identifier in generated code
+             \* a type parameter is in scope only inside the definition that declares it
+             "type_parameter_out_of_scope", "type_parameter_out_of_scope_nested", "type_parameter_out_of_scope_plain",
              "field_names_not_distinct", "computed_field_not_distinct", "step_names_not_distinct", "enum_symbols_not_distinct"}
 Rules == TypeRules \cup DefRules
 
